@@ -67,3 +67,55 @@ extern "C" void h_single_flight(void) {
     vk_reach("reconnected-once");
   }
 }
+
+// async_run stopped through its cancellation slot while one trigger holds the connection lock (attempt in flight) and others wait,
+// and called again once the stopped async_run has completed: the restarted session shares the service, the stream and the
+// connection lock with the old one (async_run is not called again while the first call is still outstanding: with two runs
+// alive their sentry operations share one timer). Further triggers (a read by the new session, a write of a new
+// publish) arrive while its attempt is in flight. At no point may two attempts overlap, and the restarted client connects.
+static void some_handlers() { int n = (int)vk_choose(4); if (n == 3) { vk::drain(); return; } for (int i = 0; i < n * 2; i++) vk::run_one(); }
+extern "C" void h_single_flight_restart(void) {
+  W* wp = new W(); W& w = *wp;
+  w.c.keep_alive(10);
+  w.c.brokers("a,b,c", 1883);
+  w.run_cancellable(); vk::drain();
+  bool ok = w.establish(); vk_assert(ok, "first connection"); w.send_connack(true, 0, nullptr, 0); w.feed_all(); vk::drain();
+  w.publish<qos_e::at_least_once>("t", "A"); w.publish<qos_e::at_most_once>("t", "B"); vk::drain();
+  // the connection dies: read and write fail together (one trigger gets the lock, the other one queues), or only one of them
+  int how = (int)vk_choose(3);
+  if (how != 1) if (auto* s = vk::pending_read()) vk::complete_read(s, nullptr, 0, asio::error::connection_reset);
+  if (how != 0) if (auto* s = vk::pending_write()) { w.writes_completed++; vk::complete_write(s, 0, asio::error::broken_pipe); }
+  if (how == 2) vk_reach("two-triggers");
+  vk::drain(); check_single(w);
+  // the attempt makes some progress (resolve done or not)
+  if (vk_choose(2)) if (auto* r = vk::pending_resolve()) { vk::complete_resolve(r, {}, 1); vk::drain(); check_single(w); }
+  // ---- stop through the slot of async_run and run again
+  w.cancel_run(); vk::drain(); check_single(w);
+  vk_assert(w.run_done == 1 && w.run_ec == asio::error::operation_aborted, "async_run stopped through its cancellation slot completes with operation_aborted");
+  w.run_cancellable(); vk_reach("restarted"); some_handlers(); check_single(w);
+  // ---- the restarted session: triggers keep arriving while its attempt is in flight
+  int extra = 0; bool connected = false;
+  for (int guard = 0; guard < 10 && !connected; guard++) {
+    check_single(w);
+    if (extra < 2 && vk_choose(2)) { extra++; w.publish<qos_e::at_most_once>("t", "C"); some_handlers(); check_single(w); vk_reach("trigger-during-attempt"); }
+    if (auto* r = vk::pending_resolve()) { vk::complete_resolve(r, {}, 1); some_handlers(); check_single(w); continue; }
+    if (auto* s = vk::pending_connect()) {
+      vk::complete_connect(s, {}); w.new_connection(); vk::drain(); check_single(w);
+      if (auto* wr = vk::pending_write()) { w.finish_write(wr, wr->wdata.size(), {}); vk::drain(); }
+      check_single(w);
+      w.send_connack(true, 0, nullptr, 0); w.feed_all(); vk::drain(); check_single(w);
+      connected = w.connected_or_writing(); continue;
+    }
+    if (vk::world().q_head) { vk::drain(); continue; }
+    vk::timer_rec* ct = vk::world().timers[1]; if (ct->armed) { w.fire_until(ct); continue; }
+    break;
+  }
+  vk::drain(); check_single(w);
+  vk_assert(w.run_done == 1, "the stopped async_run completed exactly once");
+  vk_assert(connected, "the restarted client did not connect");
+  int a = vk::world().connect_attempts;
+  for (int g = 0; g < 4; g++) { if (auto* wr = vk::pending_write()) { w.finish_write(wr, wr->wdata.size(), {}); vk::drain(); } }
+  check_single(w);
+  vk_assert(vk::world().connect_attempts == a && !w.attempt_in_progress(), "a stale trigger started another connection attempt after the restarted client connected");
+  vk_reach("restarted-and-connected");
+}
